@@ -91,6 +91,7 @@ type op struct {
 	Plan   plan   `json:"plan"`
 	Tag    string `json:"tag,omitempty"`
 	AdvNS  int64  `json:"adv_ns,omitempty"`
+	Burst  *burstSpec `json:"burst,omitempty"`
 	// filled while executing (evidence in the replay file, ignored on replay)
 	Got string `json:"got,omitempty"`
 }
@@ -125,6 +126,7 @@ type hist struct {
 	mu      sync.Mutex
 	cur     *op
 	entered chan struct{}
+	burst   *burstState // non-nil while a follower burst is in flight
 
 	dead bool // a harness-level problem: stop judging this history
 }
@@ -192,7 +194,11 @@ func (h *hist) stub(ctx context.Context, req *stack.StubRequest) *stack.StubRepl
 	h.mu.Lock()
 	o := h.cur
 	entered := h.entered
+	b := h.burst
 	h.mu.Unlock()
+	if b != nil {
+		return b.stub(ctx, req, h)
+	}
 	if o == nil {
 		return &stack.StubReply{Rcode: dns.RcodeServerFailure}
 	}
@@ -416,10 +422,14 @@ func (h *hist) Q(o op) outcome {
 	default:
 		res, pkt, proto = serveEntry(h.st, ctx, entry, po.Client, m)
 	}
-	if !h.st.Quiesce(10 * time.Second) {
-		r.Inconclusive(fmt.Sprintf("history %d: pipeline did not quiesce after op %d", h.c.Index, idx))
-		h.dead = true
-		return outcome{}
+	// ServeMsg / ServeRaw are synchronous and nothing runs in the background
+	// (prefetch off); only the client-context ops need the full drain.
+	if po.Plan.Kind == "local" || h.st.Stub().InFlight() != 0 {
+		if !h.st.Quiesce(10 * time.Second) {
+			r.Inconclusive(fmt.Sprintf("history %d: pipeline did not quiesce after op %d", h.c.Index, idx))
+			h.dead = true
+			return outcome{}
+		}
 	}
 	p1 := time.Now()
 	h.mu.Lock()
@@ -471,7 +481,7 @@ func (h *hist) Q(o op) outcome {
 		if strings.HasPrefix(entry, "raw/") {
 			r.Count("q_suppressed_wire_entry", 1)
 		}
-		if po.EDNS || po.ECS != "" {
+		if (po.EDNS || po.ECS != "") && po.Plan.Kind != "local" {
 			if out.EDE13 {
 				r.Count("q_suppressed_ede13", 1)
 			} else {
@@ -570,6 +580,9 @@ func (h *hist) violateSuppressed(idx int, po *op, k qkey, cov cover, dim string)
 	switch {
 	case h.m.disabled:
 		r.Violation("killswitch/served", "rfc9520=false, yet "+desc+" was answered SERVFAIL without reaching resolution (served from failure state)", h.replay(idx))
+	case h.m.local[k] != "":
+		c := h.m.local[k]
+		r.Violation("local/"+c+"/suppressed-other-client", "a request-local failure ("+c+") of one client suppressed "+desc+" for another client", h.replay(idx))
 	case cov.live > 0:
 		sig := "envelope/more-than-doubles"
 		if cov.tightK == 1 {
@@ -579,9 +592,6 @@ func (h *hist) violateSuppressed(idx int, po *op, k qkey, cov cover, dim string)
 		}
 		r.Violation(sig, fmt.Sprintf("%s still suppressed %v after the envelope of its covering %s failure ended (streak<=%d, bound %v, min %v, max %v)",
 			desc, cov.tightOver, cov.tightKind, cov.tightK, cov.tightBound, h.m.min, h.m.max), h.replay(idx))
-	case h.m.local[k] != "":
-		c := h.m.local[k]
-		r.Violation("local/"+c+"/suppressed-other-client", "a request-local failure ("+c+") of one client suppressed "+desc+" for another client", h.replay(idx))
 	case cov.tomb:
 		r.Violation("reset/suppressed-after-useful-answer", desc+" suppressed although a useful answer had reset every failure state covering it", h.replay(idx))
 	case dim != "":
@@ -637,7 +647,9 @@ func (h *hist) checkState(idx int, po *op, k qkey) {
 			// black-box probes judge resets; nothing demanded of the retained bytes
 		default:
 			r.Max("streak_depth_impl_max", int64(e.Streak))
-			if int(e.Streak) > me.K {
+			if c := h.m.local[k]; c != "" && e.Kind == "question" && canon(e.Name) == k.Name && int(e.Streak) > me.K {
+				r.Violation("local/"+c+"/recorded", "a request-local failure ("+c+") renewed shared failure state: "+desc, h.replay(idx))
+			} else if int(e.Streak) > me.K {
 				r.Violation("state/streak-exceeds-consecutive-failures",
 					fmt.Sprintf("%s — only %d consecutive failures were observed since the last useful answer", desc, me.K), h.replay(idx))
 			}
@@ -660,7 +672,7 @@ func (h *hist) Adv(d time.Duration) {
 	if h.dead || d <= 0 {
 		return
 	}
-	if !h.st.Quiesce(10 * time.Second) {
+	if h.st.Stub().InFlight() != 0 && !h.st.Quiesce(10*time.Second) {
 		h.r.Inconclusive(fmt.Sprintf("history %d: not quiescent before advance", h.c.Index))
 		h.dead = true
 		return
@@ -733,6 +745,11 @@ func replayHist(r *vlib.Run, c histCase) {
 			h.SeedQ(o)
 		case "seedz":
 			h.SeedZ(o.Name, o.Qclass)
+		case "burst":
+			if o.Burst != nil {
+				h.Burst(*o.Burst)
+				fmt.Printf("replay: burst %+v\n", *o.Burst)
+			}
 		}
 	}
 }
